@@ -59,13 +59,17 @@ func runC15RealDeps(c *Ctx) {
 		c.Disagree(Finding{Desc: "cannot build a clientset for the fake API server: " + err.Error()})
 		return
 	}
-	for _, variant := range []string{"client", "lister+client"} {
+	for _, variant := range []string{"client", "lister+client", "laggingLister+client"} {
 		mk := func() *admission.Admission {
 			var getter admission.NamespaceGetter
 			if variant == "client" {
 				getter = admission.NamespaceGetterFromClient(cs)
 			} else {
-				getter = admission.NamespaceGetterFromListerAndClient(corev1listers.NewNamespaceLister(cache.NewIndexer(cache.MetaNamespaceKeyFunc, cache.Indexers{})), cs)
+				idx := cache.NewIndexer(cache.MetaNamespaceKeyFunc, cache.Indexers{})
+				if variant == "laggingLister+client" { // an informer cache that has one namespace and has not seen the other yet
+					idx.Add(&corev1.Namespace{ObjectMeta: metav1.ObjectMeta{Name: "cached-ns", Labels: nsLabels}})
+				}
+				getter = admission.NamespaceGetterFromListerAndClient(corev1listers.NewNamespaceLister(idx), cs)
 			}
 			adm := &admission.Admission{
 				Configuration: &admissionapi.PodSecurityConfiguration{Defaults: admissionapi.PodSecurityDefaults{Enforce: "privileged", EnforceVersion: "latest", Audit: "privileged", AuditVersion: "latest", Warn: "privileged", WarnVersion: "latest"}},
@@ -87,6 +91,12 @@ func runC15RealDeps(c *Ctx) {
 		add := func(a *AdmitCase, deadline, delay time.Duration) {
 			a.NS, a.User, a.ExpireAfter = "team-a", "u", -1
 			jobs = append(jobs, job{a, deadline, delay})
+		}
+		// two requests in the namespace the cache may already hold come first (served without the API server where it does)
+		for i := 0; i < 2; i++ {
+			add(&AdmitCase{Res: "pods", Op: admissionv1.Create, Name: fmt.Sprintf("cached-%d", i), Obj: ObjSpec{Kind: "pod", Pod: pod(fmt.Sprintf("cached-%d", i), i == 1)}}, 0, 0)
+			jobs[len(jobs)-1].a.NS = "cached-ns"
+			jobs[len(jobs)-1].a.Obj.Pod.Namespace = "cached-ns"
 		}
 		// the ones that give up come first; the patient ones arrive while the first lookups are still in flight
 		for i := 0; i < 3; i++ {
